@@ -2,10 +2,18 @@
    Property theorems only; each closed with [exact] and followed by Print Assumptions.
    Model: Model/Issues.v (hed/errors/error_reporter.py + HedValidator.validate call path),
    error-kind table / severities / sort keys: Gen/ErrorCodes.v, regenerated from the
-   sources on every run. *)
+   sources on every run.
+   "The code as it is" = /repo HEAD, which contains the repairs of both C12 findings:
+     C12-F1  fix commit 5312cdc  (location suffix appended once: decoration idempotent)
+     C12-F2  fix commit 8c0dae9  (SidecarValidator.validate sorts also on its early return)
+   and fix commit 2e53521 (sort key keeps text and numeric labels apart).  The switches
+   code_is_fixed / code_sorts_early (mirrors of FIXED / SORT_EARLY in harness/c12.py) are true;
+   theorems named *_current are stated for those switches and break if one is flipped.  Theorems
+   named *_refuted about fixed = false / sort_early = false are RECORDS of the repaired defects
+   (behaviour before the named commit), not statements about /repo. *)
 From Coq Require Import List NArith ZArith Sorting Permutation.
 From HV Require Import Base.Res Base.Str Base.IssueTypes Gen.ErrorCodes Model.Issues Proofs.IssuesProofs
-                       Model.IssuePaths Proofs.IssuePathsProofs.
+                       Model.IssuePaths Proofs.IssuePathsProofs Model.Parse Proofs.IssuesParseLink.
 Import ListNotations.
 
 (* ---- clause 1: every issue has a code, a message and a severity ----------------- *)
@@ -34,6 +42,21 @@ Theorem C12_issue_complete : forall kind a actual i,
   (i_sev i = sev_error \/ i_sev i = sev_warning \/ a_sev a = Some (i_sev i)).
 Proof. exact format_error_complete. Qed.
 Print Assumptions C12_issue_complete.
+
+(* the message: _create_error_object always stores a 'message' (in the model the field is total: present
+   by construction), and its text is what the registered message function of the kind returns -- or
+   val_error_unknown for an unregistered kind.  The translator extracts, from the SOURCE of every message
+   function, the number of literal characters that every returned text contains (minimum over its return
+   statements); the kernel checks that it is positive for all registered kinds.  So every issue has a
+   NON-EMPTY message.  (The rendered text itself is not modelled; the implementation-side oracle checks
+   isinstance(message, str) and non-emptiness on every returned issue.) *)
+Theorem C12_message_nonempty : forall kind, 0 < msg_min_of kind.
+Proof. exact message_nonempty. Qed.
+Print Assumptions C12_message_nonempty.
+
+Theorem C12_message_table_covers_kinds : map fst kind_msg_min = map k_kind kind_table.
+Proof. exact msg_table_covers_kinds. Qed.
+Print Assumptions C12_message_table_covers_kinds.
 
 (* decoration (any context, guarded or not) never changes code, severity, the quoted
    message parts, the tag-relative indices or the source tag *)
@@ -104,6 +127,36 @@ Theorem C12_offsets_select_tag : forall fixed r t sev ctx text orig i',
 Proof. exact offsets_select_tag. Qed.
 Print Assumptions C12_offsets_select_tag.
 
+(* The span premises above (s <= e <= |text|, org_tag = the slice) are not assumptions about real tags:
+   for EVERY text, every tag of the tree C02 proves hedstring_init builds (C02_init_refines_spec) has
+   a <= b <= |text|, and its HedTag object (org_tag DEFINED as text[a:b], .tag = org_tag while unmodified)
+   satisfies tag_is_slice.  What remains assumed in C12_offsets_inside / C12_offsets_select_fragment are the
+   tag-RELATIVE index bounds idx <= idx_end <= |tag| of each rule (C01's subject; re-checked on every
+   implementation issue by the oracle). *)
+Theorem C12_parsed_tag_spans : forall s f a b,
+  hedstring_init s = Ok f -> In (a, b) (flat_map tags_of f) -> a <= b /\ b <= length s.
+Proof. exact parsed_tag_spans. Qed.
+Print Assumptions C12_parsed_tag_spans.
+
+Theorem C12_parsed_tag_is_slice : forall text f id a b,
+  hedstring_init text = Ok f -> In (a, b) (flat_map tags_of f) ->
+  tag_is_slice text (parsed_tag text id a b).
+Proof. exact parsed_tag_is_slice. Qed.
+Print Assumptions C12_parsed_tag_is_slice.
+
+(* premises discharged: a whole-tag error on a tag of a parsed text is located at the tag's span, inside
+   the text, quoting that slice *)
+Theorem C12_offsets_select_tag_parsed : forall fixed r sev ctx text orig f id a b i',
+  hedstring_init text = Ok f -> In (a, b) (flat_map tags_of f) ->
+  let t := parsed_tag text id a b in
+  let i := add_context_to_errors (wrap_tag r (SrcTag t) sev) ctx in
+  has_hed_ctx i (HS text orig []) ->
+  in_original (HS text orig []) id = true ->
+  update_error_with_char_pos fixed i = Ok i' ->
+  i_char i' = Some (a, b) /\ a <= b /\ b <= length text /\ m_tag (i_msg i') = Some (sub text a b).
+Proof. exact offsets_select_tag_parsed. Qed.
+Print Assumptions C12_offsets_select_tag_parsed.
+
 (* row strings built by HedString.from_hed_strings: the shifted span ... *)
 Theorem C12_from_strings_span : forall pre p post off id a b,
   Forall (fun q => in_original q id = false) pre ->
@@ -123,7 +176,7 @@ Print Assumptions C12_from_strings_slice.
 
 (* ---- clause 3: the location suffix appears once ------------------------------------ *)
 
-(* FULL statement (holds of the model with the idempotence guard, fixed = true): along
+(* FULL statement, for the code as it is (fixed = true: the guard of fix commit 5312cdc): along
    the call path of HedValidator.validate, for all handlers and all issue lists, every
    returned issue carries the suffix exactly once iff it carries offsets, else never *)
 Theorem C12_suffix_once_fixed : forall h basic full out,
@@ -138,8 +191,10 @@ Theorem C12_suffix_once_fixed_passes : forall h l l',
 Proof. exact suffix_once_fixed_passes. Qed.
 Print Assumptions C12_suffix_once_fixed_passes.
 
-(* The full statement is FALSE of the code as it is (finding C12-F1): validate decorates
-   the surviving basic-phase issues twice.  Witness: "red" -> STYLE_WARNING. *)
+(* RECORD of the repaired defect C12-F1 (behaviour BEFORE fix commit 5312cdc, fixed = false): the
+   full statement was false -- validate decorated the surviving basic-phase issues twice.
+   Witness: "red" -> STYLE_WARNING.  Not a statement about /repo; the harness re-establishes it by
+   reverting the commit in a private copy (mutation self-test). *)
 Theorem C12_suffix_once_refuted :
   exists h basic full out i,
     Forall fresh basic /\ Forall fresh full /\
@@ -148,16 +203,24 @@ Theorem C12_suffix_once_refuted :
 Proof. exact suffix_once_refuted. Qed.
 Print Assumptions C12_suffix_once_refuted.
 
-(* status for the code as it is: [code_is_fixed] mirrors FIXED in harness/c12.py *)
-Theorem C12_suffix_once_status : suffix_once_statement code_is_fixed.
-Proof. exact (suffix_once_status code_is_fixed). Qed.
-Print Assumptions C12_suffix_once_status.
+(* The clause for the mode that matches /repo: stated for the switch [code_is_fixed] itself (mirror of
+   FIXED in harness/c12.py; the harness checks the two agree on every run).  With the switch at false
+   this theorem does not check -- it is a statement about the current mode, not a case split. *)
+Theorem C12_suffix_once_current : forall h basic full out,
+  Forall suffix_inv basic -> Forall suffix_inv full ->
+  validate code_is_fixed h basic full = Ok out -> Forall suffix_inv out.
+Proof. exact suffix_once_current. Qed.
+Print Assumptions C12_suffix_once_current.
 
-(* what the unguarded code does guarantee, for all lists: a single decoration is right,
-   validate is right when the basic phase reports an error and for every full-phase
-   issue; only basic-phase issues that survive to the second decoration can be doubled,
-   and never more than doubled *)
-Theorem C12_suffix_current_shape : forall h basic full out,
+Theorem C12_suffix_once_current_passes : forall h l l',
+  Forall suffix_inv l -> add_context_and_filter code_is_fixed h l = Ok l' -> Forall suffix_inv l'.
+Proof. exact suffix_once_current_passes. Qed.
+Print Assumptions C12_suffix_once_current_passes.
+
+(* RECORD (behaviour before fix commit 5312cdc, fixed = false), for all lists: a single decoration was
+   right, validate was right when the basic phase reported an error and for every full-phase issue;
+   only basic-phase issues that survived to the second decoration could be doubled, never more *)
+Theorem C12_suffix_before_fix_shape : forall h basic full out,
   Forall fresh basic -> Forall fresh full ->
   validate false h basic full = Ok out ->
   exists b1, add_context_and_filter false h basic = Ok b1 /\ Forall suffix_inv b1 /\
@@ -167,7 +230,7 @@ Theorem C12_suffix_current_shape : forall h basic full out,
                     add_context_and_filter false h b1 = Ok b2 /\
                     Forall (fun i => length (i_suffixes i) <= 2) b2)).
 Proof. exact suffix_current_shape. Qed.
-Print Assumptions C12_suffix_current_shape.
+Print Assumptions C12_suffix_before_fix_shape.
 
 (* ---- clause 4: errors only = the error-severity subset --------------------------- *)
 
@@ -216,8 +279,10 @@ Theorem C12_same_key_iff : forall reverse x y,
 Proof. exact same_key_iff. Qed.
 Print Assumptions C12_same_key_iff.
 
-(* the translated key list starts title, file, sidecar column, sidecar key, row;
-   only the row is compared as an integer *)
+(* the translated key list starts title, file, sidecar column, sidecar key, row; only the row is compared
+   raw as an integer (default -1); every other key is compared as (0, text) / (1, number) with default
+   (0, "") -- sort_issues._get_keys as of fix commit 2e53521, whose source the translator compares with this
+   shape on every run *)
 Theorem C12_sort_key_documented_order :
   (exists rest, default_sort_list = CTitle :: CFile :: CSidecarCol :: CSidecarKey :: CRow :: rest)
   /\ int_sort_list = [CRow].
@@ -238,12 +303,25 @@ Theorem C12_sorted_file_col_key_row : forall a b,
 Proof. exact sorted_file_col_key_row. Qed.
 Print Assumptions C12_sorted_file_col_key_row.
 
-(* on well-typed contexts (row an int, every other key a string -- what push_error_context
-   and the validators produce) sort_issues never raises *)
+(* on well-typed contexts -- the row an int, every other key text OR a number (column labels of a file
+   read without a header are numbers; fix commit 2e53521 made them comparable with text labels by
+   tagging: (0, text) < (1, number)) -- sort_issues never raises *)
 Theorem C12_sort_total_on_typed : forall l reverse,
   forallb ctx_typed l = true -> exists l', sort_issues l reverse = Ok l'.
 Proof. exact sort_total_on_typed. Qed.
 Print Assumptions C12_sort_total_on_typed.
+
+(* numeric column labels: text labels sort before numeric ones, numeric ones numerically; a headerless
+   file's issues (no label, "HED", 2, 10) sort without raising into that order *)
+Theorem C12_text_label_before_number : forall s z, kv_cmp (KT0 s) (KT1 z) = Lt.
+Proof. exact text_label_before_number. Qed.
+Print Assumptions C12_text_label_before_number.
+
+Theorem C12_numeric_labels_sorted :
+  forallb ctx_typed nl_list = true /\
+  exists out, sort_issues nl_list false = Ok out /\ map i_sev out = [3; 1; 2; 0].
+Proof. exact numeric_labels_sorted. Qed.
+Print Assumptions C12_numeric_labels_sorted.
 
 (* ---- clause 6: export -------------------------------------------------------------- *)
 
@@ -340,7 +418,8 @@ Theorem C12_combos_own_offsets : forall h3 combos,
 Proof. exact combos_own_loc. Qed.
 Print Assumptions C12_combos_own_offsets.
 
-(* ... and this is needed: with ONE list accumulating over the combinations the issues of earlier
+(* ... and this is needed (HYPOTHETICAL variant, never in /repo: an independently seeded change): with
+   ONE list accumulating over the combinations the issues of earlier
    texts are decorated again under every later text; they end up naming a text that does not contain
    their tag (witness "{stim}, Black, Black" with stim = Blue | Item/Object) *)
 Theorem C12_combos_accum_refuted :
@@ -387,7 +466,8 @@ Theorem C12_table_errors_only : forall fixed h0 inp out,
 Proof. exact table_errors_only. Qed.
 Print Assumptions C12_table_errors_only.
 
-(* why it must be a test for errors: with "if new_column_issues:" a surviving WARNING makes the row
+(* why it must be a test for errors (a HYPOTHETICAL variant, never in /repo: an independently seeded
+   change): with "if new_column_issues:" a surviving WARNING makes the row
    skip its row-level checks and the errors-only run reports an error the other run lacks *)
 Theorem C12_gate_nonempty_not_respecting : ~ gate_respects_filter gate_nonempty.
 Proof. exact gate_nonempty_not_respecting. Qed.
@@ -409,7 +489,8 @@ Theorem C12_table_output_sorted : forall gate fixed h0 inp out,
 Proof. exact table_output_sorted. Qed.
 Print Assumptions C12_table_output_sorted.
 
-(* the sidecar path returns a sorted list, except on its early return (structure / reference error) *)
+(* both modes of the early return at once: sorted, or (only for sort_early = false, the behaviour before
+   fix commit 8c0dae9) the early return was taken *)
 Theorem C12_sidecar_output_sorted : forall fixed sort_early h0 inp out,
   sidecar_validate fixed sort_early h0 inp = Ok out ->
   StronglySorted (fun a b => issue_leb false a b = true) out \/
@@ -420,17 +501,26 @@ Theorem C12_sidecar_output_sorted : forall fixed sort_early h0 inp out,
 Proof. exact sidecar_output_sorted. Qed.
 Print Assumptions C12_sidecar_output_sorted.
 
-(* FULL statement, true of the model with "return sort_issues(issues)" on the early return *)
+(* FULL statement for sort_early = true (the early return sorts: fix commit 8c0dae9) *)
 Theorem C12_sidecar_output_sorted_fixed : forall fixed h0 inp out,
   sidecar_validate fixed true h0 inp = Ok out ->
   StronglySorted (fun a b => issue_leb false a b = true) out.
 Proof. exact sidecar_output_sorted_fixed. Qed.
 Print Assumptions C12_sidecar_output_sorted_fixed.
 
-(* ... and FALSE of the code as it is (finding C12-F2): column "b" is returned before column "a" *)
+(* the mode that matches /repo: stated for the switch [code_sorts_early] (mirror of SORT_EARLY in
+   harness/c12.py, checked by the harness on every run) *)
+Theorem C12_sidecar_output_sorted_current : forall fixed h0 inp out,
+  sidecar_validate fixed code_sorts_early h0 inp = Ok out ->
+  StronglySorted (fun a b => issue_leb false a b = true) out.
+Proof. exact sidecar_output_sorted_current. Qed.
+Print Assumptions C12_sidecar_output_sorted_current.
+
+(* RECORD of the repaired defect C12-F2 (behaviour BEFORE fix commit 8c0dae9, sort_early = false):
+   column "b" was returned before column "a".  Not a statement about /repo. *)
 Theorem C12_sidecar_early_return_unsorted_refuted :
   exists out, sidecar_validate true false wt_handler ws_input = Ok out /\
-    map (key_at CSidecarCol) out = [KS [98]%N; KS [97]%N] /\
+    map (key_at CSidecarCol) out = [KT0 [98]%N; KT0 [97]%N] /\
     ~ StronglySorted (fun a b => issue_leb false a b = true) out.
 Proof. exact sidecar_early_return_unsorted_refuted. Qed.
 Print Assumptions C12_sidecar_early_return_unsorted_refuted.
@@ -444,6 +534,11 @@ Proof. exact table_errors_only_witness_ok. Qed.
 (* the issues of _check_definitions_bad_spot, produced last, are sorted into place *)
 Example C12_sidecar_badspot_sorted_into_place :
   exists out, sidecar_validate true true wt_handler wb_input = Ok out /\
-    map (key_at CSidecarCol) out = [KS [98;99;111;108]%N; KS [99;99;111;108]%N] /\
+    map (key_at CSidecarCol) out = [KT0 [98;99;111;108]%N; KT0 [99;99;111;108]%N] /\
     StronglySorted (fun a b => issue_leb false a b = true) out.
 Proof. exact sidecar_badspot_sorted_into_place. Qed.
+
+Example C12_parsed_tags_example :
+  exists f, hedstring_init [82;101;100;44;32;66;108;117;101]%N = Ok f /\
+            flat_map tags_of f = [(0, 3); (5, 9)].
+Proof. exact parsed_tags_example. Qed.
